@@ -60,4 +60,23 @@ def stage(conf_src=None, tag="env"):
         "PYTHONHASHSEED": env.get("SPIL_HASHSEED", "0"),
         "SPIL_VERIF": "1",
     })
+    other = other_device_tmp(base)
+    if other:      # the system temp folder of the staged processes is on ANOTHER file system than the project trees
+        env["TMPDIR"] = other
     return {"dir": d, "conf": conf, "home": home, "env": env}
+
+
+def other_device_tmp(base):
+    """a temp folder on a device other than `base`'s (a tmpfs), or None: code that prepares a file in the system
+    temp folder and renames it into the project tree only works when both are on one file system"""
+    try:
+        for cand in ("/dev/shm", "/run/shm"):
+            if os.path.isdir(cand) and os.access(cand, os.W_OK) and os.stat(cand).st_dev != os.stat(base).st_dev:
+                d = os.path.join(cand, "spilverif_tmp_%s" % os.path.basename(base))
+                os.makedirs(d, exist_ok=True)
+                if d not in _made:
+                    _made.append(d)
+                return d
+    except OSError:
+        pass
+    return None
